@@ -317,11 +317,15 @@ def account_cell(i, seed):
     return RC.RCell('1' + addr + sinfo + storage, refs)
 
 
-def dbi(grams, cur):
-    """DepthBalanceInfo (split_depth 0) with balance `grams` and extra currencies {id: amount} -> (bits, refs)"""
+def dbi(grams, cur, depth=0):
+    """DepthBalanceInfo split_depth:(#<= 30) balance:CurrencyCollection with balance `grams` and extra currencies {id: amount}
+    -> (bits, refs)"""
     if cur:
-        return RB.uint(0, 5) + RB.coins(grams) + '1', (RH.build({c: RB.var_uint_l(a, 5) for c, a in cur.items()}, 32),)
-    return RB.uint(0, 5) + RB.coins(grams) + '0', ()
+        return RB.uint(depth, 5) + RB.coins(grams) + '1', (RH.build({c: RB.var_uint_l(a, 5) for c, a in cur.items()}, 32),)
+    return RB.uint(depth, 5) + RB.coins(grams) + '0', ()
+
+
+SPLIT_DEPTHS = [0, 30, 29, 1]       # per account index: both ends of the (#<= 30) range occur in leaves, the maximum in the forks above
 
 
 _DBI = {}           # (bits, refs) of an extra -> (grams, currencies): the fork extra is the SUM over its subtree, as in a real state
@@ -333,7 +337,7 @@ def leaf_value(i, seed, with_extra):
     acc = account_cell(i, seed)
     lth = filler(seed, f'c11-lth-{i}', 32)
     value = RB.bytes_bits(lth) + RB.uint(77000 + i, 64)
-    sem = (10 ** 9 + i, {7: 1000 + i} if with_extra else {})
+    sem = (10 ** 9 + i, {7: 1000 + i} if with_extra else {}, SPLIT_DEPTHS[i % 4])
     _LEAF_SEM[value] = sem
     return (value, (acc,)), acc, lth, 77000 + i
 
@@ -349,12 +353,12 @@ def leaf_extra(v):
 
 
 def fork_extra(le, re):
-    (g1, c1), (g2, c2) = _DBI[le], _DBI[re]
+    (g1, c1, d1), (g2, c2, d2) = _DBI[le], _DBI[re]
     cur = dict(c1)
     for c, a in c2.items():
         cur[c] = cur.get(c, 0) + a
-    x = dbi(g1 + g2, cur)
-    _DBI[x] = (g1 + g2, cur)
+    x = dbi(g1 + g2, cur, max(d1, d2))
+    _DBI[x] = (g1 + g2, cur, max(d1, d2))
     return x
 
 
